@@ -278,10 +278,10 @@ type params struct {
 
 func genParams(r *rand.Rand) *params {
 	return &params{
-		wCaller:   []int{1, 1, 4, 12}[r.IntN(4)], // a lazy caller lets the workers finish inside its windows
+		wCaller:   []int{1, 1, 1, 4, 12}[r.IntN(5)], // a lazy caller lets the workers finish inside its windows
 		wCancel:   []int{0, 1, 1, 3}[r.IntN(4)],
-		pNil:      []int{35, 60, 85, 100}[r.IntN(4)],
-		pCanc:     []int{0, 10, 25}[r.IntN(3)],
+		pNil:      []int{20, 35, 60, 85, 100}[r.IntN(5)],
+		pCanc:     []int{0, 10, 25, 50, 70}[r.IntN(5)],
 		precancel: []int{0, 0, 0, 25}[r.IntN(4)],
 	}
 }
